@@ -428,3 +428,332 @@ Lemma provide_decr_fields W r p k :
 Proof.
   unfold provide_decr, decr_cnt, decr_ext. destruct (Nat.eqb (cnt_get (provided_cnt r) p - k) 0); repeat split.
 Qed.
+
+(* ================================================================== ledger facts *)
+Lemma lvals_app L k v k' : lvals (L ++ [(k, v)]) k' = lvals L k' ++ (if skey_eqb k k' then [v] else []).
+Proof.
+  unfold lvals. rewrite filter_app, map_app. cbn. destruct (skey_eqb k k'); auto.
+Qed.
+
+Definition unsub_new (old : list value) (ov : option value) : list value :=
+  match ov with None => [] | Some v' => filter (fun x => negb (v_eq x v')) old end.
+
+Definition keeps (k : skey) (ov : option value) (e : entry) : bool := negb (removes k ov e).
+
+Lemma removes_key k ov e : removes k ov e = true -> fst e = k.
+Proof. unfold removes. rewrite andb_true_iff. intros [H _]. apply skey_eqb_eq; auto. Qed.
+
+Lemma lvals_unsub L k ov k' :
+  lvals (filter (keeps k ov) L) k' = if skey_eqb k' k then unsub_new (lvals L k) ov else lvals L k'.
+Proof.
+  unfold lvals. rewrite filter_filter. destruct (skey_eqb k' k) eqn:E.
+  - apply skey_eqb_eq in E. subst k'. destruct ov as [v|]; cbn [unsub_new].
+    + rewrite <- map_filter_snd. rewrite filter_filter. f_equal. apply filter_ext.
+      intros e. unfold keeps, removes. destruct (skey_eqb (fst e) k), (v_eq (snd e) v); auto.
+    + rewrite filter_none; auto. intros e _. unfold keeps, removes. destruct (skey_eqb (fst e) k); auto.
+  - f_equal. apply filter_ext. intros e. unfold keeps, removes.
+    destruct (skey_eqb (fst e) k') eqn:E1; [|apply andb_false_r].
+    apply skey_eqb_eq in E1. rewrite E1. rewrite E. auto.
+Qed.
+
+Lemma In_lvals (L : ledger) e k : In e L -> skey_eqb (fst e) k = true -> In (snd e) (lvals L k).
+Proof. intros H1 H2. unfold lvals. apply in_map. apply filter_In; auto. Qed.
+
+Lemma lcount_app L k v q :
+  lcount (L ++ [(k, v)]) q = lcount L q + (if ospec_eqb (snd k) (Some q) then 1 else 0).
+Proof. unfold lcount. rewrite filter_app, app_length. cbn. destruct (ospec_eqb (snd k) (Some q)); auto. Qed.
+
+(* how many entries a filter drops, seen through another predicate *)
+Lemma count_split_in {A} (f g : A -> bool) l : (forall x, g x = true -> f x = true) ->
+  length (filter f l) = length (filter f (filter (fun x => negb (g x)) l)) + length (filter g l).
+Proof.
+  intros H. induction l as [|a l IH]; cbn; auto.
+  destruct (g a) eqn:G; cbn.
+  - rewrite (H a G). cbn. lia.
+  - destruct (f a); cbn; lia.
+Qed.
+
+Lemma count_split_out {A} (f g : A -> bool) l : (forall x, g x = true -> f x = false) ->
+  length (filter f (filter (fun x => negb (g x)) l)) = length (filter f l).
+Proof.
+  intros H. induction l as [|a l IH]; cbn; auto.
+  destruct (g a) eqn:G; cbn.
+  - rewrite (H a G). auto.
+  - destruct (f a); cbn; lia.
+Qed.
+
+Lemma unsub_len_leaf L k ov :
+  length (lvals L k) = length (lvals (filter (keeps k ov) L) k) + length (filter (removes k ov) L).
+Proof.
+  unfold lvals. rewrite !map_length. apply (count_split_in (fun e => skey_eqb (fst e) k) (removes k ov)).
+  intros [k0 v0] H. apply removes_key in H. cbn in H. subst k0. cbn. apply skey_eqb_refl.
+Qed.
+
+Lemma unsub_lcount_same L k ov p : snd k = Some p ->
+  lcount L p = lcount (filter (keeps k ov) L) p + length (filter (removes k ov) L).
+Proof.
+  intros Hk. unfold lcount. apply (count_split_in (fun e => ospec_eqb (snd (fst e)) (Some p)) (removes k ov)).
+  intros [k0 v0] H. apply removes_key in H. cbn in H. subst k0. cbn. rewrite Hk. apply ospec_eqb_eq; auto.
+Qed.
+
+Lemma unsub_lcount_other L k ov q : snd k <> Some q ->
+  lcount (filter (keeps k ov) L) q = lcount L q.
+Proof.
+  intros Hk. unfold lcount. apply (count_split_out (fun e => ospec_eqb (snd (fst e)) (Some q)) (removes k ov)).
+  intros [k0 v0] H. apply removes_key in H. cbn in H. subst k0. cbn. destruct (ospec_eqb (snd k) (Some q)) eqn:E; auto.
+  apply ospec_eqb_eq in E. contradiction.
+Qed.
+
+(* ================================================================== leaves of the model *)
+Definition leaf (m : list (skey * list value)) (k : skey) : list value :=
+  match aget skey_eqb m k with Some l => l | None => [] end.
+
+Lemma sub_leaf_leaf r k : sub_leaf r k = leaf (subscribers r) k.
+Proof. reflexivity. Qed.
+
+Lemma leaf_aset m k l k' : leaf (aset skey_eqb m k l) k' = if skey_eqb k' k then l else leaf m k'.
+Proof. unfold leaf. rewrite (aget_aset skey_eqb skey_eqb_eq). destruct (skey_eqb k' k); auto. Qed.
+
+Lemma leaf_adel m k k' : NoDup (map fst m) ->
+  leaf (adel skey_eqb m k) k' = if skey_eqb k' k then [] else leaf m k'.
+Proof. intros H. unfold leaf. rewrite (aget_adel skey_eqb skey_eqb_eq) by auto. destruct (skey_eqb k' k); auto. Qed.
+
+(* ================================================================== the refinement invariant *)
+Record Inv (W : world) (r : reg) (L : ledger) : Prop := mkInv {
+  inv_leaf : forall k, sub_leaf r k = lvals L k;
+  inv_nonempty : forall k l, aget skey_eqb (subscribers r) k = Some l -> l <> [];
+  inv_subs_nodup : NoDup (map fst (subscribers r));
+  inv_cnt : forall p, acount r p + lcount L p <= cnt_get (provided_cnt r) p;
+  inv_ext : ExtOK W (provided_cnt r) (extendors r)
+}.
+
+Lemma inv_empty W : Inv W empty_reg [].
+Proof.
+  constructor; cbn; auto.
+  - intros k l H; discriminate.
+  - constructor.
+  - split; [constructor|split]; cbn.
+    + intros; constructor.
+    + intros i q. split; [tauto|]. intros [H _]. inversion H.
+Qed.
+
+Lemma changed_fields x :
+  adapters (changed x) = adapters x /\ subscribers (changed x) = subscribers x
+  /\ provided_cnt (changed x) = provided_cnt x /\ extendors (changed x) = extendors x.
+Proof. repeat split. Qed.
+
+(* ---- subscribe *)
+Lemma subscribe_fields W r req p v :
+  adapters (subscribe W r req p v) = adapters r
+  /\ subscribers (subscribe W r req p v)
+     = aset skey_eqb (subscribers r) (map conv req, p) (sub_leaf r (map conv req, p) ++ [v])
+  /\ provided_cnt (subscribe W r req p v)
+     = match p with Some p' => incr_cnt (provided_cnt r) p' | None => provided_cnt r end
+  /\ extendors (subscribe W r req p v)
+     = match p with Some p' => incr_ext W (provided_cnt r) (extendors r) p' | None => extendors r end.
+Proof. destruct p; repeat split. Qed.
+
+Lemma acount_eq r r' p : adapters r' = adapters r -> acount r' p = acount r p.
+Proof. unfold acount. intros ->. auto. Qed.
+
+Lemma subscribe_inv W r L req p v : wf_world W -> Inv W r L ->
+  Inv W (subscribe W r req p v) (L ++ [((map conv req, p), v)]).
+Proof.
+  intros HW [I1 I2 I3 I4 I5].
+  destruct (subscribe_fields W r req p v) as (Fa & Fs & Fc & Fe).
+  set (k := (map conv req, p)) in *.
+  constructor.
+  - intros k'. rewrite sub_leaf_leaf, Fs, leaf_aset, lvals_app, <- I1, (skey_eqb_sym k k').
+    destruct (skey_eqb k' k) eqn:E.
+    + apply skey_eqb_eq in E. subst k'. reflexivity.
+    + rewrite app_nil_r. reflexivity.
+  - intros k' l. rewrite Fs, (aget_aset skey_eqb skey_eqb_eq).
+    destruct (skey_eqb k' k); [|apply I2]. intros [= <-]. destruct (sub_leaf r k); discriminate.
+  - rewrite Fs. apply (NoDup_aset skey_eqb skey_eqb_eq); auto.
+  - intros q. rewrite (acount_eq _ _ _ Fa), lcount_app, Fc. specialize (I4 q).
+    destruct p as [p'|]; cbn [snd k ospec_eqb].
+    + rewrite incr_cnt_get. rewrite (Nat.eqb_sym p' q). destruct (Nat.eqb_spec q p'); subst; lia.
+    + lia.
+  - rewrite Fc, Fe. destruct p; auto. apply incr_ok; auto.
+Qed.
+
+(* ---- unsubscribe *)
+Lemma unsubscribe_cases W r req p ov :
+  let k := (map conv req, p) in
+  let old := sub_leaf r k in
+  let new := unsub_new old ov in
+  (length new = length old /\ unsubscribe W r req p ov = r)
+  \/ (length new <> length old
+      /\ adapters (unsubscribe W r req p ov) = adapters r
+      /\ subscribers (unsubscribe W r req p ov)
+         = match new with [] => adel skey_eqb (subscribers r) k | _ => aset skey_eqb (subscribers r) k new end
+      /\ provided_cnt (unsubscribe W r req p ov)
+         = match p with Some p' => decr_cnt (provided_cnt r) p' (length old - length new)
+                      | None => provided_cnt r end
+      /\ extendors (unsubscribe W r req p ov)
+         = match p with Some p' => decr_ext W (provided_cnt r) (extendors r) p' (length old - length new)
+                      | None => extendors r end).
+Proof.
+  cbv zeta. unfold unsubscribe. cbv zeta.
+  destruct (sub_leaf r (map conv req, p)) as [|x old] eqn:E.
+  - left. split; auto. destruct ov; reflexivity.
+  - fold (unsub_new (x :: old) ov). set (new := unsub_new (x :: old) ov).
+    destruct (Nat.eqb_spec (length new) (length (x :: old))) as [H|H]; [left; auto|right].
+    split; auto.
+    destruct p as [p'|].
+    + match goal with |- context [provide_decr W ?r1 p' ?d] =>
+        destruct (provide_decr_fields W r1 p' d) as (A & B & C & D) end.
+      cbn [adapters subscribers provided_cnt extendors changed] in *.
+      rewrite A, B, C, D. repeat split.
+    + repeat split.
+Qed.
+
+Lemma unsubscribe_inv W r L req p ov : wf_world W -> Inv W r L ->
+  Inv W (unsubscribe W r req p ov) (filter (keeps (map conv req, p) ov) L).
+Proof.
+  intros HW I. pose proof I as [I1 I2 I3 I4 I5].
+  destruct (unsubscribe_cases W r req p ov) as [[Hlen Heq]|(Hlen & Fa & Fs & Fc & Fe)];
+    set (k := (map conv req, p)) in *; rewrite (I1 k) in *.
+  - (* nothing removed *)
+    rewrite Heq. rewrite filter_all; auto.
+    intros e He. unfold keeps. destruct (removes k ov e) eqn:R; auto. exfalso.
+    pose proof (removes_key _ _ _ R) as Hk.
+    assert (Hin : In (snd e) (lvals L k)).
+    { apply In_lvals; auto. rewrite Hk. apply skey_eqb_refl. }
+    destruct ov as [v|]; cbn [unsub_new] in Hlen.
+    + apply filter_length_eq in Hlen. rewrite <- Hlen in Hin. apply filter_In in Hin.
+      destruct Hin as [_ Hin]. unfold removes in R. rewrite andb_true_iff in R. destruct R as [_ R].
+      rewrite R in Hin. discriminate.
+    + destruct (lvals L k); [destruct Hin|discriminate].
+  - set (new := unsub_new (lvals L k) ov) in *.
+    assert (Hleaf : forall k', leaf (subscribers (unsubscribe W r req p ov)) k'
+                               = if skey_eqb k' k then new else leaf (subscribers r) k').
+    { intros k'. rewrite Fs. destruct new eqn:En.
+      - apply leaf_adel; auto.
+      - apply leaf_aset. }
+    constructor.
+    + intros k'. rewrite sub_leaf_leaf, Hleaf, lvals_unsub. fold new.
+      destruct (skey_eqb k' k); auto. rewrite <- I1. reflexivity.
+    + intros k' l. rewrite Fs. destruct new eqn:En.
+      * rewrite (aget_adel skey_eqb skey_eqb_eq) by auto. destruct (skey_eqb k' k); [discriminate|apply I2].
+      * rewrite (aget_aset skey_eqb skey_eqb_eq). destruct (skey_eqb k' k); [|apply I2].
+        intros [= <-]. discriminate.
+    + rewrite Fs. destruct new.
+      * apply (NoDup_adel skey_eqb); auto.
+      * apply (NoDup_aset skey_eqb skey_eqb_eq); auto.
+    + intros q. rewrite (acount_eq _ _ _ Fa), Fc. specialize (I4 q).
+      destruct p as [p'|].
+      * destruct I5 as (Hc & _).
+        rewrite decr_cnt_get by auto.
+        pose proof (unsub_len_leaf L k ov) as H1. rewrite (lvals_unsub L k ov k), skey_eqb_refl in H1.
+        fold new in H1.
+        destruct (Nat.eqb_spec q p') as [->|Hne].
+        -- pose proof (unsub_lcount_same L k ov p' eq_refl) as H2. lia.
+        -- rewrite unsub_lcount_other; auto. cbn. congruence.
+      * rewrite unsub_lcount_other; auto. cbn. congruence.
+    + rewrite Fc, Fe. destruct p; auto. apply decr_ok; auto.
+Qed.
+
+(* ---- register / unregister *)
+Lemma unregister_cases W r req p n ov :
+  let k : akey := (map conv req, p, n) in
+  unregister W r req p n ov = r
+  \/ (exists old, aget akey_eqb (adapters r) k = Some old
+      /\ adapters (unregister W r req p n ov) = adel akey_eqb (adapters r) k
+      /\ subscribers (unregister W r req p n ov) = subscribers r
+      /\ provided_cnt (unregister W r req p n ov) = decr_cnt (provided_cnt r) p 1
+      /\ extendors (unregister W r req p n ov) = decr_ext W (provided_cnt r) (extendors r) p 1).
+Proof.
+  cbv zeta. unfold unregister.
+  destruct (aget akey_eqb (adapters r) (map conv req, p, n)) as [old|] eqn:E; [|left; auto].
+  assert (Hgo : forall r1, adapters r1 = adel akey_eqb (adapters r) (map conv req, p, n) ->
+                           subscribers r1 = subscribers r -> provided_cnt r1 = provided_cnt r ->
+                           extendors r1 = extendors r ->
+    exists old0, Some old = Some old0
+      /\ adapters (changed (provide_decr W r1 p 1)) = adel akey_eqb (adapters r) (map conv req, p, n)
+      /\ subscribers (changed (provide_decr W r1 p 1)) = subscribers r
+      /\ provided_cnt (changed (provide_decr W r1 p 1)) = decr_cnt (provided_cnt r) p 1
+      /\ extendors (changed (provide_decr W r1 p 1)) = decr_ext W (provided_cnt r) (extendors r) p 1).
+  { intros r1 A1 A2 A3 A4. exists old. split; auto.
+    destruct (provide_decr_fields W r1 p 1) as (A & B & C & D).
+    cbn [adapters subscribers provided_cnt extendors changed].
+    rewrite A, B, C, D, A1, A2, A3, A4. repeat split. }
+  destruct ov as [v'|].
+  - destruct (v_is old v'); [right; apply Hgo; reflexivity|left; auto].
+  - right; apply Hgo; reflexivity.
+Qed.
+
+Lemma register_cases W r req p n v' :
+  let k : akey := (map conv req, p, n) in
+  register W r req p n (Some v') = r
+  \/ (adapters (register W r req p n (Some v')) = aset akey_eqb (adapters r) k v'
+      /\ subscribers (register W r req p n (Some v')) = subscribers r
+      /\ provided_cnt (register W r req p n (Some v')) = incr_cnt (provided_cnt r) p
+      /\ extendors (register W r req p n (Some v')) = incr_ext W (provided_cnt r) (extendors r) p).
+Proof.
+  cbv zeta. unfold register.
+  destruct (aget akey_eqb (adapters r) (map conv req, p, n)) as [old|] eqn:E.
+  - destruct (v_is old v'); [left; auto|right; repeat split].
+  - right; repeat split.
+Qed.
+
+Lemma acount_aset_le r r' k v q : adapters r' = aset akey_eqb (adapters r) k v ->
+  acount r' q <= acount r q + (if Nat.eqb q (snd (fst k)) then 1 else 0).
+Proof.
+  unfold acount. intros ->. rewrite (keys_aset akey_eqb).
+  destruct (aget akey_eqb (adapters r) k); [lia|].
+  rewrite kcount_app. rewrite (Nat.eqb_sym q). apply Nat.le_refl.
+Qed.
+
+Lemma unregister_inv W r L req p n ov : wf_world W -> Inv W r L -> Inv W (unregister W r req p n ov) L.
+Proof.
+  intros HW I. pose proof I as [I1 I2 I3 I4 I5].
+  destruct (unregister_cases W r req p n ov) as [->|(old & E & Fa & Fs & Fc & Fe)]; auto.
+  constructor.
+  - intros k. rewrite sub_leaf_leaf, Fs. apply I1.
+  - rewrite Fs. apply I2.
+  - rewrite Fs. apply I3.
+  - intros q. destruct I5 as (Hc & _). rewrite Fc, decr_cnt_get by auto.
+    set (f := fun k : akey => Nat.eqb (snd (fst k)) q).
+    pose proof (kcount_adel akey_eqb akey_eqb_eq f _ _ _ E) as H.
+    specialize (I4 q).
+    change (acount r q) with (length (filter f (map fst (adapters r)))) in I4.
+    change (acount (unregister W r req p n ov) q)
+      with (length (filter f (map fst (adapters (unregister W r req p n ov))))).
+    rewrite Fa. unfold f at 3 in H. cbn [fst snd] in H.
+    rewrite (Nat.eqb_sym p q) in H. destruct (Nat.eqb_spec q p) as [->|Hne]; lia.
+  - rewrite Fc, Fe. apply decr_ok; auto.
+Qed.
+
+Lemma register_inv W r L req p n ov : wf_world W -> Inv W r L -> Inv W (register W r req p n ov) L.
+Proof.
+  intros HW I. destruct ov as [v'|]; [|apply unregister_inv; auto].
+  pose proof I as [I1 I2 I3 I4 I5].
+  destruct (register_cases W r req p n v') as [->|(Fa & Fs & Fc & Fe)]; auto.
+  constructor.
+  - intros k. rewrite sub_leaf_leaf, Fs. apply I1.
+  - rewrite Fs. apply I2.
+  - rewrite Fs. apply I3.
+  - intros q. rewrite Fc, incr_cnt_get. pose proof (acount_aset_le _ _ _ _ q Fa) as H.
+    cbn [fst snd] in H. specialize (I4 q). destruct (Nat.eqb_spec q p) as [->|Hne]; lia.
+  - rewrite Fc, Fe. apply incr_ok; auto.
+Qed.
+
+(* ---- every operation, every history *)
+Lemma mstep_inv W r L o : wf_world W -> Inv W r L -> Inv W (mstep W r o) (lstep L o).
+Proof.
+  intros HW I. destruct o; cbn [mstep lstep].
+  - apply subscribe_inv; auto.
+  - apply unsubscribe_inv; auto.
+  - apply register_inv; auto.
+  - apply unregister_inv; auto.
+Qed.
+
+Lemma fold_inv W h : wf_world W -> forall r L, Inv W r L ->
+  Inv W (fold_left (mstep W) h r) (fold_left lstep h L).
+Proof.
+  intros HW. induction h as [|o h IH]; intros r L I; cbn; auto. apply IH, mstep_inv; auto.
+Qed.
+
+Lemma run_inv W h : wf_world W -> Inv W (run_reg W h) (run_led h).
+Proof. intros HW. apply fold_inv; auto. apply inv_empty. Qed.
